@@ -207,10 +207,14 @@ def check_pair(env, a, b, rec, sa, sb):
 def plan(tier, seed):
     n = 8 if tier == "quick" else 16
     per = 20000 if tier == "quick" else 120000
-    return [{"i": i, "n": per, "hashseed": (seed * 31 + i * 7919 + 1) % 4294967295} for i in range(n)]
+    return [{"i": i, "n": per, "hashseed": (seed * 31 + i * 7919 + 1) % 4294967295} for i in range(n)] + ([{"kind": "e10"}] if tier == "thorough" else [])
 
 
 def run_shard(shard, rec):
+    if shard.get("kind") == "e10":
+        from vlib import e10
+        e10.run_e10("C19", rec)
+        return
     env = Env()
     try:
         r = gen.rng(rec.seed, "c19", shard["i"])
